@@ -779,4 +779,125 @@ theorem restore_refines {rb : RB} {a : AState} (wf : WF rb) (R : Refines rb a) (
         · show FramesRel (RB.restore rb) (RB.restore rb).depth (RB.restore rb).stack rest
           rw [r11, r12]; exact hstack
 
+/-! ## `reset` -/
+
+theorem reset_cell (rb : RB) (l c : Int) :
+    (RB.reset rb).cell l c =
+      if 0 ≤ l ∧ l < rb.lines ∧ 0 ≤ c ∧ c < rb.cols then
+        (if c = 0 then { contCell (rb.cell l c) 0 with state := .skip, maskdepth := -1, cols := rb.cols }
+         else contCell (rb.cell l c) 0)
+      else rb.cell l c := rfl
+
+theorem reset_refines {rb : RB} {a : AState} (wf : WF rb) (R : Refines rb a) :
+    WF (RB.reset rb) ∧ Refines (RB.reset rb) (RBAbs.reset a) := by
+  have hst : ∀ l c, 0 ≤ l → l < rb.lines → 0 ≤ c → c < rb.cols →
+      ((RB.reset rb).cell l c).state = (if c = 0 then .skip else .cont) ∧
+      ((RB.reset rb).cell l c).cols = (if c = 0 then rb.cols else 0) ∧ ((RB.reset rb).cell l c).maskdepth = -1 := by
+    intro l c h1 h2 h3 h4
+    rw [reset_cell, if_pos ⟨h1, h2, h3, h4⟩]
+    split <;> simp
+  have hmdall : ∀ l c, -1 ≤ ((RB.reset rb).cell l c).maskdepth ∧
+      (0 ≤ l → l < rb.lines → 0 ≤ c → c < rb.cols → ((RB.reset rb).cell l c).maskdepth = -1) := by
+    intro l c
+    refine ⟨?_, fun h1 h2 h3 h4 => (hst l c h1 h2 h3 h4).2.2⟩
+    rw [reset_cell]
+    split
+    · split <;> simp
+    · exact wf.maskLB l c
+  have hsz := wf.size
+  have hrow : ∀ l, 0 ≤ l → l < rb.lines → RowWF rb.cols ((RB.reset rb).cells l) := by
+    intro l h1 h2
+    have S : ∀ k, 0 ≤ k → k < rb.cols →
+        (((RB.reset rb).cells l).get k).state = (if k = 0 then .skip else .cont) ∧
+        (((RB.reset rb).cells l).get k).cols = (if k = 0 then rb.cols else 0) :=
+      fun k a b => ⟨(hst l k h1 h2 a b).1, (hst l k h1 h2 a b).2.1⟩
+    have S0 := S 0 (by omega) hsz.2
+    simp only [if_true] at S0
+    refine ⟨?_, ?_, ?_, ?_, ?_, ?_⟩
+    · intro k a b x
+      obtain ⟨s1, s2⟩ := S k a b
+      by_cases hk : k = 0
+      · rw [s1, if_pos hk] at x; cases x
+      · rw [s2, if_neg hk]; omega
+    · intro k a b x
+      obtain ⟨s1, s2⟩ := S k a b
+      by_cases hk : k = 0
+      · rw [s1, if_pos hk] at x; cases x
+      · rw [s2, if_neg hk, S0.1]; simp
+    · intro k a b x
+      obtain ⟨s1, s2⟩ := S k a b
+      by_cases hk : k = 0
+      · rw [s1, if_pos hk] at x; cases x
+      · rw [s2, if_neg hk, S0.2]; omega
+    · intro k a b x
+      obtain ⟨s1, s2⟩ := S k a b
+      by_cases hk : k = 0
+      · rw [s2, if_pos hk]; omega
+      · rw [s1, if_neg hk] at x; exact absurd rfl x
+    · intro k j a b x y z
+      obtain ⟨s1, s2⟩ := S k a b
+      by_cases hk : k = 0
+      · rw [s2, if_pos hk] at z
+        obtain ⟨t1, t2⟩ := S j (by omega) (by omega)
+        rw [t1, t2, if_neg (by omega), if_neg (by omega)]; exact ⟨rfl, hk.symm⟩
+      · rw [s1, if_neg hk] at x; exact absurd rfl x
+    · intro k a b x
+      obtain ⟨s1, s2⟩ := S k a b
+      by_cases hk : k = 0
+      · rw [s1, if_pos hk] at x; rcases x with x | x <;> cases x
+      · rw [s1, if_neg hk] at x; rcases x with x | x <;> cases x
+  have hdepth : (RB.reset rb).depth = 0 := by
+    show (if rb.stack.isEmpty then rb.depth else 0) = 0
+    cases hs : rb.stack with
+    | nil => simp; rw [wf.depth, hs]; rfl
+    | cons f fs => simp
+  refine ⟨⟨wf.size, hrow, fun l c => (hmdall l c).1, ?_, ?_, ?_, ?_, wf.aborted, wf.fuelOut⟩, ?_⟩
+  · intro l c h1 h2 h3 h4
+    rw [(hmdall l c).2 h1 h2 h3 h4, hdepth]; omega
+  · rw [hdepth]; rfl
+  · show ClipOK rb.lines rb.cols ⟨0, 0, rb.lines, rb.cols⟩
+    unfold ClipOK Rect.bottom Rect.right
+    simp only
+    by_cases h : rb.lines = 0
+    · left; exact h
+    · right; omega
+  · intro f hf; cases hf
+  · unfold RBAbs.reset AState.new
+    refine ⟨R.lines, R.cols, ?_, ?_, rfl, rfl, rfl, ?_, rfl, ?_⟩
+    · intro L C
+      show Content.skip = absContent (RB.reset rb) L C
+      rw [absContent_eq]
+      show _ = if inBuf rb.lines rb.cols L C = true then _ else _
+      by_cases hb : inBuf rb.lines rb.cols L C = true
+      · rw [if_pos hb]
+        have hb' := (inBuf_iff _ _ _ _).1 hb
+        obtain ⟨s1, s2, _⟩ := hst L C hb'.1 hb'.2.1 hb'.2.2.1 hb'.2.2.2
+        obtain ⟨t1, t2, _⟩ := hst L 0 hb'.1 hb'.2.1 (by omega) hsz.2
+        simp only [if_true] at t1 t2
+        unfold RB.cell at s1 s2 t1 t2
+        unfold rowContent cellContent
+        by_cases hc : C = 0
+        · rw [if_pos hc] at s1
+          rw [if_neg (by rw [s1]; simp), s1]
+        · rw [if_neg hc] at s1 s2
+          rw [if_pos s1, s2, t1]
+      · rw [if_neg hb]
+    · intro L C
+      show false = absMasked (RB.reset rb) L C
+      unfold absMasked
+      show _ = (inBuf rb.lines rb.cols L C && _)
+      by_cases hb : inBuf rb.lines rb.cols L C = true
+      · have hb' := (inBuf_iff _ _ _ _).1 hb
+        rw [(hmdall L C).2 hb'.1 hb'.2.1 hb'.2.2.1 hb'.2.2.2]; simp
+      · simp [hb]
+    · intro L C
+      show inBuf a.lines a.cols L C = absClipRect ⟨0, 0, rb.lines, rb.cols⟩ L C
+      rw [R.lines, R.cols]
+      apply bool_ext
+      rw [inBuf_iff, absClipRect_iff]
+      simp only
+      omega
+    · show FramesRel (RB.reset rb) (RB.reset rb).depth [] []
+      simp [FramesRel]
+
 end Tickit.RB
